@@ -514,7 +514,9 @@ class CIString(Terminal):
         super().__init__(None)
         # TODO: unescape value
         self.value = value
-        self._re = re.compile(re.escape(value), re.I)
+        # pest ignores ASCII case only (`eq_ignore_ascii_case`); without re.A
+        # "k" would also match U+212A KELVIN SIGN, "s" U+017F, etc.
+        self._re = re.compile(re.escape(value), re.I | re.A)
 
     def __str__(self) -> str:
         # TODO: replace non-printing characters with \u{XXXX} escape sequence
@@ -538,7 +540,7 @@ class CIString(Terminal):
         gen.writeln("# <CIString>")
 
         pattern = re.escape(self.value)
-        re_var = gen.constant("RE", f"re.compile({pattern!r}, re.I)")
+        re_var = gen.constant("RE", f"re.compile({pattern!r}, re.I | re.A)")
 
         gen.writeln(f"if match := {re_var}.match(state.input, state.pos):")
         with gen.block():
